@@ -138,6 +138,12 @@ class Program:
             self.ns["__F"] = d
 
     @property
+    def fn(self):
+        """what a user calls: the dispatch *function* (``@ovld def f`` binds f to it), not the Ovld object -
+        its code is swapped by compile(), so it does not pass through Ovld.__call__"""
+        return getattr(self.ov, "dispatch", None) or self.ov
+
+    @property
     def names(self):
         o = self.ov
         return tuple(x for x in (getattr(o, "shortname", None), getattr(o, "__name__", None)) if x)
@@ -154,7 +160,8 @@ class Program:
         if self.instance is not None:
             inst = self.instance
             return outcome(lambda: inst.f(*pos, **kw), self.vf, self.names)
-        return outcome(lambda: self.ov(*pos, **kw), self.vf, self.names)
+        f = self.fn
+        return outcome(lambda: f(*pos, **kw), self.vf, self.names)
 
     def resolve(self, call, args=None):
         """o.resolve(*positional) -> mid of the handler, or error kind."""
